@@ -118,6 +118,10 @@ class C07(Prop):
             tabs = [(m, r) for m in self.maps[n] for r in range(n + 1)]
             for j, (m, r) in enumerate(tabs if n == 1 else rng.sample(tabs, 120)):
                 yield {"k": "expect", "rows": ins_to_state(m), "r": r, "obs": enum.herm(n), "dt": list(DTS[j % 7]), "pkg": "py"}
+        for n in (1, 2):
+            tabs = [(m, r) for m in self.maps[n] for r in range(n + 1)]
+            for j, (m, r) in enumerate(tabs[:12] if n == 1 else rng.sample(tabs, 60)):
+                yield {"k": "expect", "rows": ins_to_state(m), "r": r, "obs": enum.herm(n), "ro": True, "pkg": "py"}
         for nw in (36, 70):
             for s in self._wide(nw):
                 yield s
@@ -230,6 +234,9 @@ class C07(Prop):
                 rec = {"op": "expect", "fn": fn, "pre": pre, "obs": scn["obs"]}
                 try:
                     O = be.plist(scn["obs"])
+                    if scn.get("ro"):
+                        be.freeze(O)         # observables are only read
+                        rec["ro"] = True
                     if scn.get("dt"):
                         # element types of the user's observable arrays; a refusal is accepted, a returned value must be right
                         rec["dt"] = scn["dt"]
